@@ -48,6 +48,12 @@ def plan(tier, seed):
                  "via": pick(rng, ["func", "linop"])}
             if f == "resize":
                 c["oshape"] = [max(1, s + int(rng.integers(-4, 5))) for s in shape]
+                if nd >= 2 and i % 5 == 4:
+                    # one axis grows, another shrinks, same number of elements (permuted
+                    # shape, or a re-factorisation such as (2, 6) -> (3, 4))
+                    c["oshape"] = [int(v) for v in rng.permutation(shape)]
+                    if c["oshape"] == shape and shape[0] % 2 == 0:
+                        c["oshape"] = [shape[0] // 2, shape[1] * 2] + shape[2:]
             elif f == "resize-shift":
                 c["oshape"] = [max(1, s + int(rng.integers(-4, 5))) for s in shape]
                 c["ishift"] = [int(rng.integers(0, s + 1)) for s in shape]
@@ -67,9 +73,10 @@ def plan(tier, seed):
             elif f == "flip":
                 k = int(rng.integers(1, nd + 1))
                 ax = sorted(rng.choice(nd, size=k, replace=False).tolist())
-                style = pick(rng, ["none", "pos", "neg"])
+                style = pick(rng, ["none", "pos", "neg", "mixed", "mixed"])
                 c["axes"] = None if style == "none" else [
-                    int(a - nd) if style == "neg" else int(a) for a in ax]
+                    int(a - nd) if (style == "neg" or (style == "mixed" and j_ % 2 == 0))
+                    else int(a) for j_, a in enumerate(rng.permutation(ax).tolist())]
             elif f in ("downsample", "upsample"):
                 c["factors"] = [int(rng.integers(1, 5)) for _ in shape]
                 c["fshift"] = None if rng.random() < 0.3 else [
